@@ -79,7 +79,7 @@ def _items(c: Chooser, n, serial0):
 
 def generate(rng, cfg: Dict) -> Dict:
     c = Chooser(rng)
-    mode = c.weighted([("single", 4), ("multi", 4), ("general", 4), ("endless", 2), ("pattern", 2)])
+    mode = c.weighted([("single", 4), ("multi", 4), ("general", 4), ("endless", 2), ("pattern", 2), ("forall", 1.5)])
     sc: Dict = {"property": "C10", "machine": "eval_sim", "mode": mode, "salt": c.int(0, 1 << 30), "shared": [], "streams": []}
     if mode == "general":
         g = eval_gen.Gen(rng, dict(cfg, shared_p=0.0, rule_p=0.35))
@@ -107,7 +107,7 @@ def generate(rng, cfg: Dict) -> Dict:
         sc["queries"] = [q]
     elif mode == "single":
         n = c.int(1, 6)
-        sc["domains"] = [{"id": 0, "kind": "gen", "items": _items(c, n, 0)}]
+        sc["domains"] = [{"id": 0, "kind": c.weighted([("gen", 5), ("sized", 1)]), "items": _items(c, n, 0)}]
         serials = list(range(n))
         for it in sc["domains"][0]["items"]:
             it["ref"] = c.pick(serials)
@@ -128,7 +128,7 @@ def generate(rng, cfg: Dict) -> Dict:
         serial = 0
         for i in range(nv):
             n = c.int(1, 4)
-            sc["domains"].append({"id": i, "kind": "gen", "items": _items(c, n, serial)})
+            sc["domains"].append({"id": i, "kind": c.weighted([("gen", 5), ("sized", 1)]), "items": _items(c, n, serial)})
             serial += n
             sc["vars"].append({"name": f"v{i}", "t": "A", "dom": i})
         conds = []
@@ -152,6 +152,27 @@ def generate(rng, cfg: Dict) -> Dict:
             sel = [["var", c.int(0, nv - 1)]]
             shape = "entity"
         sc["queries"] = [{"q": "an", "shape": shape, "sel": sel, "conds": conds}]
+    elif mode == "forall":
+        # for_all whose universal variable ranges over a stream: once every candidate is refuted the stream must not
+        # be pulled any further (with an unbounded stream: the evaluation must end at all)
+        n = c.int(1, 4)
+        unbounded = c.chance(0.5)
+        refuter_at = c.int(0, 3)
+        pattern = [c.int(0, 3) for _ in range(refuter_at)] + [9] + [c.int(0, 3) for _ in range(c.int(0, 2))]
+        sc["domains"] = [{"id": 0, "kind": c.pick(["list", "gen"]), "items": _items(c, n, 0)}]
+        if unbounded:
+            sc["domains"].append({"id": 1, "kind": "inf", "t": "A", "pattern": pattern, "items": []})
+        else:
+            witems = _items(c, len(pattern) + c.int(0, 3), 100)
+            for i, it in enumerate(witems):
+                it["a"] = pattern[i] if i < len(pattern) else c.int(0, 3)
+            sc["domains"].append({"id": 1, "kind": "gen", "items": witems})
+        for it in sc["domains"][0]["items"]:
+            it["ref"] = None
+        sc["vars"] = [{"name": "v0", "t": "A", "dom": 0}, {"name": "v1", "t": "A", "dom": 1}]
+        # v0.a >= v1.a holds for no candidate once the universal variable reaches the element with a == 9
+        sc["queries"] = [{"q": "an", "shape": "entity", "sel": [["var", 0]], "conds": [["forall", ["var", 1], ["cmp", ">=", ["attr", ["var", 0], "a"], ["attr", ["var", 1], "a"]]]]}]
+        sc["forall_refuter_index"] = refuter_at
     elif mode == "pattern":
         # pattern matching: entity_matching(T, stream)(attr=literal | item | match(T)(...))
         n = c.int(1, 5)
@@ -303,9 +324,9 @@ def execute(scenario: Dict) -> Dict:
         distinct_doms = len({scenario["vars"][v]["dom"] for v in kinds}) == len(kinds)
         # a rule query over one variable infers one instance per binding; the binding's element is read from the
         # inferred instance's keyword arguments
-        elig5[qi] = plain and len(vs) == 1 and qd.get("shape") == "entity" and (is_rule or qd["sel"] == [["var", next(iter(vs))]]) and all(k in ("gen", "inf") for k in kinds.values())
+        elig5[qi] = plain and len(vs) == 1 and qd.get("shape") == "entity" and (is_rule or qd["sel"] == [["var", next(iter(vs))]]) and all(k in ("gen", "inf", "sized") for k in kinds.values())
         plain = plain and not is_rule
-        elig6[qi] = (plain and len(vs) >= 2 and distinct_doms and all(k == "gen" for k in kinds.values())
+        elig6[qi] = (plain and len(vs) >= 2 and distinct_doms and all(k in ("gen", "sized") for k in kinds.values())
                      and not _has_tag([qd.get("conds", [])], ("or", "not", "flatten"))
                      and all(isinstance(s, list) and s[0] == "var" for s in qd["sel"]))
     for qi, qd in enumerate(scenario["queries"]):
@@ -424,12 +445,30 @@ def execute(scenario: Dict) -> Dict:
         except StopIteration:
             task["state"] = "done"
             log.add("end", task["tid"], "stop")
+            if scenario.get("mode") == "forall" and not task.get("flagged"):
+                # L9: the universal stream is pulled exactly until every candidate is refuted
+                cands = [it["a"] for it in scenario["domains"][0]["items"] if it["t"] in ("A", "A2")]
+                wdom = scenario["domains"][1]
+                values = (wdom["pattern"] * 50) if wdom["kind"] == "inf" else [it["a"] for it in wdom["items"]]
+                expected = len(values)
+                for i, w in enumerate(values):
+                    cands = [a for a in cands if a >= w]
+                    if not cands:
+                        expected = i + 1
+                        break
+                pulled = mon.pulls.get(1, 0)
+                counters.inc("probe.L9_checked")
+                if pulled != expected and not task["results"]:
+                    verdicts.append(kernel.verdict("C10.L9", f"for_all: every candidate is refuted after {expected} elements of the universal stream, {pulled} have been pulled", phase="STEP", via="universal-over-pull" if pulled > expected else "universal-under-pull", query=task["qi"]))
+                    task["flagged"] = True
             return False
         except FuseBlown:
             task["state"] = "failed"
             log.add("end", task["tid"], "fuse")
             qi = task["qi"]
-            if endless and period_ok.get(qi, (False, 0))[0]:
+            if scenario.get("mode") == "forall":
+                verdicts.append(kernel.verdict("C10.L7", f"for_all over an unbounded universal stream does not end although every candidate is refuted after {scenario.get('forall_refuter_index', 0) + 1} of its elements (more than {fuse} user-code events in one step)", phase="STEP", via="forall-unbounded", query=qi))
+            elif endless and period_ok.get(qi, (False, 0))[0]:
                 verdicts.append(kernel.verdict("C10.L7", f"a step of query {qi} over an unbounded stream consumed more than {fuse} user-code events although every period of the stream contains a result", phase="STEP", via="unbounded", query=qi))
             elif not endless and refs[qi]["end"] != "fuse":
                 verdicts.append(kernel.verdict("C10.L7", f"a step of query {qi} consumed more than {fuse} events", phase="STEP", via="bounded", query=qi))
@@ -544,7 +583,7 @@ def execute(scenario: Dict) -> Dict:
         elif t["state"] == "failed" and t.get("end") and (t["end"] != ref["end"] or len(got) != len(ref["results"])):
             verdicts.append(kernel.verdict("C10.L4", f"evaluation raised {t['end']} after {len(got)} results, the isolated evaluation: {ref['end']} after {len(ref['results'])}", phase="STEP", via="exception", query=t["qi"]))
     for d in scenario["domains"]:
-        if d["kind"] in ("gen", "inf") and (len(d["items"]) >= 2 or d["kind"] == "inf") and mon.seq > 0:
+        if d["kind"] in ("gen", "inf", "sized") and (len(d["items"]) >= 2 or d["kind"] == "inf") and mon.seq > 0:
             nontrivial = True
     counters.inc("user_events", mon.seq)
     counters.inc("mode." + scenario.get("mode", "?"))
